@@ -57,6 +57,17 @@ Proof.
     + apply filter_In in H as [_ H]. apply untypable_none; auto.
     + apply in_map_iff in H as [x [<- Hx]]. cbn. destruct (assoc f F) as [[ps [r|]]|]; auto.
       rewrite (IH _ Hx); reflexivity.
+  - intros l IHl i IHi j IHj e' H; cbn in H. apply in_app_or in H as [H | H].
+    + apply filter_In in H as [_ H]. apply untypable_none; auto.
+    + apply in_app_or in H as [H | H]; [| apply in_app_or in H as [H | H]]; apply in_map_iff in H as [x [<- Hx]]; cbn.
+      * rewrite (IHl _ Hx); reflexivity.
+      * rewrite (IHi _ Hx). destruct (type_of M F G l); reflexivity.
+      * rewrite (IHj _ Hx). destruct (type_of M F G l); auto. destruct (type_of M F G i); reflexivity.
+  - intros e IHe a IHa e' H; cbn in H. apply in_app_or in H as [H | H].
+    + apply filter_In in H as [_ H]. apply untypable_none; auto.
+    + apply in_app_or in H as [H | H]; apply in_map_iff in H as [x [<- Hx]]; cbn.
+      * rewrite (IHe _ Hx); reflexivity.
+      * destruct (type_of M F G e); auto. rewrite (IHa _ Hx), andb_false_r. reflexivity.
   - intros a' H; inversion H.
   - intros e IHe a IHa a' H ps; cbn in H. apply in_app_or in H as [H | H]; apply in_map_iff in H as [x [<- Hx]].
     + apply args_chk_untypable_head; auto.
@@ -70,6 +81,9 @@ Proof. intros F G e t H; unfold has_typeb; rewrite H; reflexivity. Qed.
 Lemma numericb_none : forall F G e, type_of M F G e = None -> numericb_expr M F G e = false.
 Proof. intros F G e H; unfold numericb_expr; rewrite H; reflexivity. Qed.
 
+Lemma indexb_none : forall F G e, type_of M F G e = None -> indexb_expr M F G e = false.
+Proof. intros F G e H; unfold indexb_expr; rewrite H; reflexivity. Qed.
+
 Lemma rw_slots_fail : forall F G d r s s', In s' (rw_slots M g F G s) -> stmt_chk M F G d r s' = None.
 Proof.
   intros F G d r s s' H. destruct (rwE_untypable F G) as [HE HA].
@@ -77,6 +91,11 @@ Proof.
   - apply in_map_iff in H as [w [<- Hw]]. cbn. rewrite (assign_chk_none _ _ _ _ (HE _ _ Hw)), andb_false_r. reflexivity.
   - apply in_map_iff in H as [w [<- Hw]]. cbn. destruct (lookup G x) as [[| | |]|]; auto.
     rewrite (assign_chk_none _ _ _ _ (HE _ _ Hw)). reflexivity.
+  - apply in_app_or in H as [H | H]; apply in_map_iff in H as [w [<- Hw]]; cbn; destruct (lookup G x) as [[| | |]|]; auto.
+    + rewrite (indexb_none _ _ _ (HE _ _ Hw)), andb_false_r. reflexivity.
+    + rewrite (assign_chk_none _ _ _ _ (HE _ _ Hw)), andb_false_r. reflexivity.
+  - apply in_map_iff in H as [w [<- Hw]]. cbn. destruct (lookup G x) as [[[| | | | | | |s]| | |]|]; auto.
+    destruct (field_of M s f) as [[[|] tf]|]; auto. rewrite (assign_chk_none _ _ _ _ (HE _ _ Hw)). reflexivity.
   - apply in_map_iff in H as [w [<- Hw]]. cbn. rewrite (has_typeb_none _ _ _ _ (HE _ _ Hw)). reflexivity.
   - apply in_map_iff in H as [w [<- Hw]]. cbn. rewrite (has_typeb_none _ _ _ _ (HE _ _ Hw)). reflexivity.
   - apply in_app_or in H as [H | H]; [| apply in_app_or in H as [H | H]].
@@ -84,6 +103,11 @@ Proof.
     + apply in_map_iff in H as [w [<- Hw]]. cbn. rewrite (numericb_none _ _ _ (HE _ _ Hw)), !andb_false_r. reflexivity.
     + destruct step as [e|]; [| contradiction]. apply in_map_iff in H as [w [<- Hw]]. cbn.
       rewrite (numericb_none _ _ _ (HE _ _ Hw)), !andb_false_r. reflexivity.
+  - apply in_map_iff in H as [w [<- Hw]]. cbn [stmt_chk]. rewrite (HE _ _ Hw), !andb_false_r. reflexivity.
+  - apply in_map_iff in H as [w [<- Hw]]. cbn. destruct (block_chk M F (push G) (S d) r b); auto.
+    rewrite (indexb_none _ _ _ (HE _ _ Hw)). reflexivity.
+  - apply in_map_iff in H as [w [<- Hw]]. cbn. destruct (block_chk M F (push G) (S d) r b); auto.
+    rewrite (has_typeb_none _ _ _ _ (HE _ _ Hw)). reflexivity.
   - destruct e as [e|]; [| contradiction]. apply in_map_iff in H as [w [<- Hw]]. cbn.
     destruct r as [| [t|]]; auto. rewrite (has_typeb_none _ _ _ _ (HE _ _ Hw)). reflexivity.
   - apply in_map_iff in H as [w [<- Hw]]. cbn. destruct (assoc f F) as [[ps ro]|]; auto. rewrite (HA _ _ Hw). reflexivity.
@@ -94,7 +118,7 @@ Lemma rwS_fail : forall F,
   (forall b G d r b', In b' (rwB M g F G d r b) -> block_chk M F G d r b' = None).
 Proof.
   intros F; apply stmt_block_ind.
-  1-3, 7-9, 11: intros; match goal with H : In _ (rwS _ _ _ _ _ _ _) |- _ => cbn [rwS] in H;
+  1-5, 12-14, 16: intros; match goal with H : In _ (rwS _ _ _ _ _ _ _) |- _ => cbn [rwS] in H;
        apply in_app_or in H as [H | H]; [apply filter_In in H as [_ H]; apply stmt_fails_none; auto |];
        apply in_app_or in H as [H | H]; [eapply rw_slots_fail; eauto | inversion H] end.
   - intros c th IHth el IHel G d r s' H. cbn [rwS] in H.
@@ -114,6 +138,20 @@ Proof.
     apply in_map_iff in H as [y [<- Hy]]. cbn [stmt_chk].
     rewrite (IHb _ _ _ _ Hy).
     match goal with |- (if ?c then _ else _) = _ => destruct c; reflexivity end.
+  - intros a t x e b IHb G d r s' H. cbn [rwS] in H.
+    apply in_app_or in H as [H | H]; [apply filter_In in H as [_ H]; apply stmt_fails_none; auto |].
+    apply in_app_or in H as [H | H]; [eapply rw_slots_fail; eauto |].
+    apply in_map_iff in H as [y [<- Hy]]. cbn [stmt_chk].
+    rewrite (IHb _ _ _ _ Hy).
+    match goal with |- (if ?c then _ else _) = _ => destruct c; reflexivity end.
+  - intros b IHb n G d r s' H. cbn [rwS] in H.
+    apply in_app_or in H as [H | H]; [apply filter_In in H as [_ H]; apply stmt_fails_none; auto |].
+    apply in_app_or in H as [H | H]; [eapply rw_slots_fail; eauto |].
+    apply in_map_iff in H as [y [<- Hy]]. cbn. rewrite (IHb _ _ _ _ Hy). reflexivity.
+  - intros b IHb c G d r s' H. cbn [rwS] in H.
+    apply in_app_or in H as [H | H]; [apply filter_In in H as [_ H]; apply stmt_fails_none; auto |].
+    apply in_app_or in H as [H | H]; [eapply rw_slots_fail; eauto |].
+    apply in_map_iff in H as [y [<- Hy]]. cbn. rewrite (IHb _ _ _ _ Hy). reflexivity.
   - intros b IHb G d r s' H. cbn [rwS] in H.
     apply in_app_or in H as [H | H]; [apply filter_In in H as [_ H]; apply stmt_fails_none; auto |].
     apply in_app_or in H as [H | H]; [eapply rw_slots_fail; eauto |].
